@@ -16,6 +16,8 @@
 (*   inacc      the requests that are in the middle of an access           *)
 (*   log        per request, its events in program order -- exactly what   *)
 (*              the harness records from the real code                     *)
+(*   gseq       the lock/unlock events of all requests in the order of the *)
+(*              sequence numbers written under the lock                    *)
 (*                                                                         *)
 (* Property predicates: Inv_Mutex (every access to cache/policy is made by *)
 (* the lock holder), Inv_AtMostOne (at most one owner), deadlock freedom   *)
@@ -50,10 +52,10 @@ CONSTANTS Procs, Kinds,
 
 None == "none"
 
-VARIABLES kind, pc, holder, readers, inacc, log,      \* part 1
+VARIABLES kind, pc, holder, readers, inacc, log, gseq, \* part 1
           outcome, ch, wait, res, ins, fetch, rd      \* part 2
 
-lockvars == <<kind, pc, holder, readers, inacc, log>>
+lockvars == <<kind, pc, holder, readers, inacc, log, gseq>>
 rvvars   == <<outcome, ch, wait, res, ins, fetch, rd>>
 vars     == <<lockvars, rvvars>>
 
@@ -77,19 +79,19 @@ InitLock ==
     /\ kind \in [Procs -> Kinds]
     /\ pc = [p \in Procs |-> 1]
     /\ holder = None /\ readers = {} /\ inacc = {}
-    /\ log = [p \in Procs |-> <<>>]
+    /\ log = [p \in Procs |-> <<>>] /\ gseq = <<>>
 
 AccBegin(p) ==
     /\ ~Done(p) /\ Cur(p) = "acc" /\ p \notin inacc
     /\ inacc' = inacc \cup {p}
     /\ log' = [log EXCEPT ![p] = Append(@, [e |-> "acc", held |-> holder = p])]
-    /\ UNCHANGED <<kind, pc, holder, readers>>
+    /\ UNCHANGED <<kind, pc, holder, readers, gseq>>
 
 AccEnd(p) ==
     /\ p \in inacc
     /\ inacc' = inacc \ {p}
     /\ pc' = [pc EXCEPT ![p] = @ + 1]
-    /\ UNCHANGED <<kind, holder, readers, log>>
+    /\ UNCHANGED <<kind, holder, readers, log, gseq>>
 
 \* sync.RWMutex: Lock waits until there is neither a writer nor a reader; it is not re-entrant
 Lock(p) ==
@@ -98,6 +100,7 @@ Lock(p) ==
     /\ holder' = p
     /\ pc' = [pc EXCEPT ![p] = @ + 1]
     /\ log' = [log EXCEPT ![p] = Append(@, [e |-> "lock", held |-> TRUE])]
+    /\ gseq' = Append(gseq, [e |-> "lock", q |-> p])
     /\ UNCHANGED <<kind, readers, inacc>>
 
 Unlock(p) ==
@@ -105,6 +108,7 @@ Unlock(p) ==
     /\ holder' = None
     /\ pc' = [pc EXCEPT ![p] = @ + 1]
     /\ log' = [log EXCEPT ![p] = Append(@, [e |-> "unlock", held |-> TRUE])]
+    /\ gseq' = Append(gseq, [e |-> "unlock", q |-> p])
     /\ UNCHANGED <<kind, readers, inacc>>
 
 \* the shadowing Lock()/Unlock() of verif builds do not see RLock/RUnlock: no event is recorded
@@ -112,13 +116,13 @@ RLock(p) ==
     /\ ~Done(p) /\ Cur(p) = "rlock" /\ holder = None
     /\ readers' = readers \cup {p}
     /\ pc' = [pc EXCEPT ![p] = @ + 1]
-    /\ UNCHANGED <<kind, holder, inacc, log>>
+    /\ UNCHANGED <<kind, holder, inacc, log, gseq>>
 
 RUnlock(p) ==
     /\ ~Done(p) /\ Cur(p) = "runlock"
     /\ readers' = readers \ {p}
     /\ pc' = [pc EXCEPT ![p] = @ + 1]
-    /\ UNCHANGED <<kind, holder, inacc, log>>
+    /\ UNCHANGED <<kind, holder, inacc, log, gseq>>
 
 StepLock(p) == AccBegin(p) \/ AccEnd(p) \/ Lock(p) \/ Unlock(p) \/ RLock(p) \/ RUnlock(p)
 AllDone     == \A p \in Procs : Done(p)
@@ -132,6 +136,8 @@ Inv_AtMostOne    == Cardinality((IF holder = None THEN {} ELSE {holder}) \cup re
 \* what the harness derives from a request's recorded events is what really happened
 Inv_EventView    == \A p \in Procs : \A i \in DOMAIN log[p] :
                         log[p][i].e = "acc" => (log[p][i].held <=> HeldAt(log[p], i))
+\* ... and the recorded lock events alternate exactly when the lock has at most one owner
+Inv_SeqView      == AlternatesOK(gseq, holder # None)
 TypeOKLock == /\ kind \in [Procs -> Kinds] /\ holder \in Procs \cup {None} /\ readers \subseteq Procs /\ inacc \subseteq Procs
               /\ \A p \in Procs : pc[p] \in 1..(Len(Program(kind[p])) + 1)
 Termination == <>AllDone
@@ -198,7 +204,7 @@ RvTermination == <>RvDone
 IdleRv  == /\ outcome = "nochan" /\ ch = "nochan" /\ wait = "nil" /\ res = "none" /\ ins = "start" /\ fetch = "idle"
            /\ rd = [r \in Readers |-> [pc |-> "idle", after |-> FALSE, got |-> "none"]]
 IdleLock == /\ kind = [p \in Procs |-> CHOOSE k \in Kinds : TRUE] /\ pc = [p \in Procs |-> 1] /\ holder = None /\ readers = {}
-            /\ inacc = {} /\ log = [p \in Procs |-> <<>>]
+            /\ inacc = {} /\ log = [p \in Procs |-> <<>>] /\ gseq = <<>>
 
 SpecLock == /\ InitLock /\ IdleRv /\ [][NextLock /\ UNCHANGED rvvars]_vars
             /\ \A p \in Procs : WF_vars(StepLock(p) /\ UNCHANGED rvvars)
